@@ -217,6 +217,7 @@ def run_C06(ctx, rng, tier, res, known):
     cases = []
     for f in ("f32", "f64"):
         cases += _mod().cases_long(rng, tier, f)
+        cases += gens.gen_bigint_ties(rng, f, 1200 if tier == "quick" else 30000)
     _mod().check_pf("C06", cases, ctx.cfgs, ctx.profiles, res, known)
     # drift detector for parse_mantissa (digit bookkeeping)
     pm = []
@@ -436,6 +437,10 @@ def run_C11(ctx, rng, tier, res, known):
         cases += gens.gen_mp_near_halfway(rng, f, 3000 if q else 60000)
         cases += gens.gen_mp_ties(rng, f)
         cases += gens.gen_mp_guard(rng, f, tbl, 600 if q else 20000)
+        cases += gens.gen_mp_exact_guard(rng, f)
+        fq = _mod().focus_q_from_tables()
+        if fq:
+            cases += gens.gen_mp_near_halfway(rng, f, 40000, focus_q=fq)
         cases += gens.gen_mp_uniform(rng, f, 6000 if q else 400000)
         # the two corner points (known findings 9.2)
         for w in (0, 2 ** 64 - 1):
@@ -493,8 +498,19 @@ def run_C12(ctx, rng, tier, res, known):
                     continue
                 if I != m:
                     # heap shl_limbs relation: may answer none only when n + len > 62
-                    if cap is None and I == "none" and op in ("shl", "shl_limbs", "bpow"):
-                        continue
+                    if cap is None and I == "none" and op in ("shl", "shl_limbs", "bpow") and m not in ("none", "ctor-none"):
+                        # heap shl_limbs compares n + len against Vec::capacity() (>= 62): it may refuse only
+                        # when n + len exceeds 62 limbs
+                        tt = line.split()
+                        xl = len(parse_l(tt[2]))
+                        if op == "shl_limbs":
+                            ok = int(tt[3]) + xl > 62
+                        elif op == "shl":
+                            ok = int(tt[3]) // 64 + xl + (1 if int(tt[3]) % 64 else 0) > 62
+                        else:
+                            ok = len(parse_l(m.split()[0])) > 62 or xl == 0
+                        if ok:
+                            continue
                     res.drift.append(dict(case=line[:500], cfg=c, profile=p, impl=I[:300], model=m[:300]))
                 # predicate on the implementation's output: exact natural-number result
                 if s is not None and op not in ("compare", "hi64", "bit_length") and I not in ("none", "ctor-none"):
@@ -543,18 +559,24 @@ def run_C13(ctx, rng, tier, res, known):
                 if c == cfgs[0] and p == ctx.profiles[0]:
                     _mod().fam_count(res, cases[i][1])
                 if I.startswith(("abort", "panic")):
-                    res.viol.append(("panic" if I.startswith("panic") else "abort", dict(case=line[:1500], cfg=c, profile=p, impl=I)))
+                    over = cap is None and p == "dbg" and "assert" in I and any(
+                        len(parse_l(st.split("=", 1)[1])) > 62 for st in M.split("|") if "=" in st)
+                    if over:
+                        kf = "HeapVec::set_len debug-asserts len <= 62: normalize/shl on a heap vector grown beyond the 62-limb design capacity panics in debug builds (DESIGN 9.6)"
+                        res.known[kf] = res.known.get(kf, 0) + 1
+                    else:
+                        res.viol.append(("panic" if I.startswith("panic") else "abort", dict(case=line[:1500], cfg=c, profile=p, impl=I)))
                     continue
                 ops = line[3:].split(";")
                 si, sm = I.split("|"), M.split("|")
                 # reference-sequence predicate, computed here independently of the Lean model
-                bad = history_predicate(ops, si, cap)
-                if bad:
+                for bad in history_predicate(ops, si, cap):
                     if "unnormalized" in bad[0]:
                         res.known["eq/cmp on vectors with a zero top limb compare limb counts first (by design; DESIGN 9.3)"] = \
                             res.known.get("eq/cmp on vectors with a zero top limb compare limb counts first (by design; DESIGN 9.3)", 0) + 1
                     else:
                         res.viol.append(("history", dict(case=line[:3000], cfg=c, profile=p, why=bad[0], step=bad[1])))
+                        break
                 if si != sm:
                     k = next((j for j in range(min(len(si), len(sm))) if si[j] != sm[j]), -1)
                     res.drift.append(dict(case=line[:1500], cfg=c, profile=p, step=k, impl=si[k][:200] if k >= 0 else "", model=sm[k][:200] if k >= 0 else ""))
@@ -564,7 +586,9 @@ def run_C13(ctx, rng, tier, res, known):
     return {}
 
 def history_predicate(ops, outs, cap):
-    """independent reference: python lists. returns (why, step) or None"""
+    """independent reference: python lists. returns a list of (why, step); checking continues after an
+    un-normalised eq/cmp mismatch (known finding) and stops at the first other problem"""
+    issues = []
     a, b = [], []
     M = 2 ** 64
     for j, (op, o) in enumerate(zip(ops, outs)):
@@ -640,8 +664,9 @@ def history_predicate(ops, outs, cap):
             if r != exp_r:
                 unnorm = (a and a[-1] == 0) or (b and b[-1] == 0)
                 if unnorm:
-                    return ("unnormalized operand: %s expected %s got %s" % (k, exp_r, r), j)
-                return ("%s: expected %s got %s" % (k, exp_r, r), j)
+                    issues.append(("unnormalized operand: %s expected %s got %s" % (k, exp_r, r), j))
+                else:
+                    return issues + [("%s: expected %s got %s" % (k, exp_r, r), j)]
             exp_r = r
         elif k == "hi64":
             exp_r = r
@@ -654,19 +679,19 @@ def history_predicate(ops, outs, cap):
         elif k == "isnorm":
             exp_r = "0" if (a and a[-1] == 0) else "1"
         if r != exp_r:
-            return ("result of %s: expected %s got %s" % (op[:40], exp_r, r), j)
+            return issues + [("result of %s: expected %s got %s" % (op[:40], exp_r, r), j)]
         got = parse_l(st)
         if na is None:
             if cap is not None and len(got) > cap:
-                return ("length exceeds capacity", j)
+                return issues + [("length exceeds capacity", j)]
             a = got
             continue
         if got != na:
-            return ("contents after %s differ from the reference sequence" % op[:40], j)
+            return issues + [("contents after %s differ from the reference sequence" % op[:40], j)]
         if cap is not None and len(got) > cap:
-            return ("length exceeds capacity", j)
+            return issues + [("length exceeds capacity", j)]
         a = na
-    return None
+    return issues
 
 # ------------------------------------------------------------------ C14
 def run_C14(ctx, rng, tier, res, known):
@@ -959,6 +984,41 @@ def run_C19(ctx, rng, tier, res, known):
                 if I != m:
                     res.drift.append(dict(case=line, cfg=c, profile=p, impl=I, model=m))
                 res.nontrivial.add(line)
+    # value clause, independent of the front-end model: decompose the consumed prefix with a regex,
+    # trim, clamp the exponent, and ask the exact rne spec for the value of the pieces
+    import re as _r
+    qlines, qidx = [], []
+    for i, line in enumerate(lines):
+        t = line.split()
+        bs = bytes.fromhex(t[3][1:]) if t[3] != "-" else b""
+        body = bs.decode("latin-1")
+        neg = body[:1] == "-"
+        if body[:1] in ("+", "-"):
+            body = body[1:]
+        if t[1] in ("fuzz", "itest") and _r.match(r"(?i)(nan|inf)", body):
+            continue
+        m = _r.match(r"([0-9]*)(?:\.([0-9]*))?(?:[eE]([+-]?)([0-9]*))?", body)
+        ip, fp, es, ed = m.group(1) or "", m.group(2) or "", m.group(3) or "", m.group(4) or ""
+        e = int(ed) if ed else 0
+        e = -e if es == "-" else e
+        e = max(gens.I32MIN, min(gens.I32MAX, e))
+        qlines.append(gens.pf(t[2], ip.lstrip("0"), fp.rstrip("0"), e))
+        qidx.append((i, neg))
+    spec = run_model("std", "release", qlines)
+    for c in [x for x in ctx.cfgs if x in ("std", "std+compact", "std+alloc")]:
+        for p in ctx.profiles:
+            impl = run_impl(c, p, lines) if False else None
+    implc = {(c, p): run_impl(c, p, lines) for c in [x for x in ctx.cfgs if x in ("std", "std+compact", "std+alloc")] for p in ctx.profiles}
+    for (i, neg), sl in zip(qidx, spec):
+        m, trap, sp = _mod().parse_model(sl)
+        if sp is None:
+            continue
+        F = gens.FMT[lines[i].split()[2]]
+        want = int(sp[2:], 16) | ((1 << (F["w"] - 1)) if neg else 0)
+        for key, out in implc.items():
+            I = out[i]
+            if I.startswith("v ") and int(I.split()[1], 16) != want:
+                res.viol.append(("front-end-value", dict(case=lines[i], cfg=key[0], profile=key[1], impl=I, expected_bits="%x" % want)))
     for i in range(0, len(lines), max(1, len(lines) // 5)):
         res.samples.append(dict(case=lines[i], bytes=bytes.fromhex(lines[i].split()[3][1:]).decode("latin-1") if lines[i].split()[3] != "-" else ""))
     return {}
